@@ -195,7 +195,24 @@ def r11_2(ctx: Ctx) -> RuleResult:
                     return FIRST if len(c.args) == 1 else FIRST_OR_NONE
             return None
 
-        ex = Explorer(ctx.folder, m, None, on_call)
+        # (`with suppress(E): B` is read as `try: B` / `except E: pass` here - the canonical form writes it the other way)
+        import copy as _copy
+
+        from sa.loader import FuncInfo as _FI
+
+        class _Unsuppress(ast.NodeTransformer):
+            def visit_With(self, node: ast.With) -> ast.AST:
+                self.generic_visit(node)
+                if len(node.items) == 1 and isinstance(node.items[0].context_expr, ast.Call) and callee_name(node.items[0].context_expr) == "suppress" \
+                        and node.items[0].optional_vars is None and node.items[0].context_expr.args:
+                    a_ = node.items[0].context_expr.args
+                    typ = a_[0] if len(a_) == 1 else ast.Tuple(elts=list(a_), ctx=ast.Load())
+                    return ast.copy_location(ast.Try(body=node.body, handlers=[ast.ExceptHandler(type=typ, name=None, body=[ast.Pass()])], orelse=[], finalbody=[]), node)
+                return node
+
+        m_node = ast.fix_missing_locations(_Unsuppress().visit(_copy.deepcopy(m.node)))
+        m_view = _FI(qualname=m.qualname, name=m.name, node=m_node, module=m.module, cls=m.cls)
+        ex = Explorer(ctx.folder, m_view, None, on_call)
         outs = ex.run({})
         ok = bool(outs)
         extra = None
@@ -224,7 +241,7 @@ def r11_2(ctx: Ctx) -> RuleResult:
         else:
             rr.bad(m, m.node, f"{cls.name}.match must be next(iter(self.finditer(data, filter_context=...))) or None",
                    construct=f"{cls.name}.match shape")
-        q = cls.methods.get("query")
+        q = ctx.repo.find_method(cls, "query")  # (maybe inherited from a shared base of the two path classes)
         if q is None:
             raise AnalysisError(f"{cls.name}.query not found")
         v = _single_return(q)
